@@ -8,6 +8,7 @@ CONSTANTS
   Hardened = TRUE
   StopAtAuth = TRUE
   CtLenExact = TRUE
+  StoreAfterUid = TRUE
   LenChoices <- LenChoicesGen
   TruncMax = 2
 INVARIANTS Sound
